@@ -82,3 +82,16 @@ prop("C10", level="other", stages=[tierc.stage_for("C10")], trusted_base=FFT_TRU
 prop("C14", level="other", stages=[tierc.stage_for("C14")], trusted_base=FFT_TRUST,
      technique="Verus (FFT half-block delay) + Tier B first-frame instant (polynomial resamplers)",
      explanation="output_delay() is the true alignment delay (structural form)")
+
+from . import tierb_async  # noqa: E402
+
+prop("C06", level="other",
+     technique="Tier B VC generation + Z3 on the extracted stepping code; Kani bit-precise setter contracts; expression identity",
+     explanation="ratio changes give a continuous forward-only time warp: strictly increasing instants, spacing 1/ratio, step changes effective from the "
+                 "first frame of the next chunk, current ratio == target after every call, every read inside the part of the buffer filled for the call")
+
+for _p in ("C03", "C04", "C06", "C07"):
+    PROPS[_p]["stages"].append(tierb_async.stage_for(_p))
+    PROPS[_p].setdefault("assumptions", []).extend(tierb_async.ASSUME_TEXT)
+PROPS["C10"]["stages"].append(tierb_async.stage_for("C10", what=("reset",)))
+PROPS["C10"].setdefault("assumptions", []).extend(tierb_async.ASSUME_TEXT[:3])
